@@ -56,7 +56,8 @@ Definition routes_denote (routes : list (Z * Z * list (list iset))) (sc : scenar
     forallb (fun ra => list_eqb bind_eqb (denote_routes (fst ra)) (a_binds (snd ra))) (combine per_action (i_actions spec))) routes.
 
 (* ---- the compass: an action built as Cardinal { north, east, south, west } from four plain keys
-   (and nothing else) reports (east - west, north - south) ---- *)
+   (and nothing else) reports (east - west, north - south); this is the Cumulative reading - with MaxAbs opposite
+   directions do not cancel, and the action is compared with the hand-written sequence and the model only ---- *)
 Definition key_down (f : frame_in) (i : iset) : option Q :=
   match i with
   | RRaw (IKey k 0) => Some (b2q (memz k (r_keys (f_raw f))))
@@ -84,7 +85,8 @@ Fixpoint judge_steps (routes : list (Z * Z * list (list iset))) (sc : scenario) 
            let '(c, e, per_action) := x in
            flat_map (fun ra =>
              match fst ra with
-             | [r] => match compass_expect f r, snap_of_entry c e (a_id (snd ra)) (x_snaps o) with
+             | [r] => match (match aid_accum (a_id (snd ra)) with Cumulative => compass_expect f r | MaxAbs => None end),
+                            snap_of_entry c e (a_id (snd ra)) (x_snaps o) with
                       | Some (ex, ey), Some s =>
                           [(2, veqb (sn_value s) (convert (aid_dim (a_id (snd ra))) (V2 ex ey)))]
                       | _, _ => []
